@@ -32,6 +32,21 @@ func vxSQLOpenDSN(driver, dsn string) (*sql.DB, error) {
 	return vx.SQLOpen(vxSQLHandler), nil
 }
 
+// vxLockExecHook, when set, runs once immediately before the next acquisition of
+// the DB's executor semaphore: it stands for another operation (a sync round, a
+// checkpoint) that held the executor and completed before this caller got it -
+// one interleaving point of the real concurrency, at the place where the code
+// itself serialises.
+var vxLockExecHook func()
+
+func (db *DB) lockExec(ctx context.Context) error {
+	if h := vxLockExecHook; h != nil {
+		vxLockExecHook = nil
+		h()
+	}
+	return db.lockExecReal(ctx)
+}
+
 func (db *DB) setPersistWAL(ctx context.Context) error {
 	if vxSQLHandler == nil {
 		return db.setPersistWALReal(ctx)
@@ -305,4 +320,47 @@ func VxC14Close() {
 	_ = db.Close(context.Background())
 	e.check(db)
 	vx.Assert("close-releases-read-lock-and-handles", db.rtx == nil && db.db == nil && db.f == nil && e.closed && len(e.open) == 0)
+}
+
+// VxC14EnsureExists: the start-up step that restores a missing database. When
+// the source database is there (the application may be attached to it, its WAL
+// holding commits that are in no checkpoint yet) nothing of it may be touched:
+// not the file, not its -wal / -shm, and no integrity check may be run on it (the
+// check is written for freshly restored copies and unlinks -wal and -shm when it
+// is done).
+func VxC14EnsureExists() {
+	dir := vx.TempDir()
+	path := dir + "/app.db"
+	exists := vx.Fault("sourceExists")
+	dbBytes := []byte("SQLite format 3\x00 live database")
+	walBytes := append(make([]byte, WALHeaderSize), []byte("frames not checkpointed yet")...)
+	if exists {
+		vx.FSWriteFile(path, dbBytes)
+		vx.FSWriteFile(path+"-wal", walBytes)
+		vx.FSWriteFile(path+"-shm", []byte("wal-index"))
+	}
+	db := NewDB(path)
+	c := &vxStoreClient{}
+	if vx.Fault("replicaHasBackup") {
+		c.put(&vxLTX{level: SnapshotLevel, min: 1, max: 2, commit: 2, ts: 1000, pages: []vxPg{{1, 11}, {2, 12}}})
+		c.put(&vxLTX{level: 0, min: 2, max: 2, commit: 2, ts: 1000, pages: []vxPg{{1, 11}}})
+	}
+	db.Replica = NewReplicaWithClient(db, c)
+	vxIntegrityPaths = nil
+	err := db.EnsureExists(context.Background())
+	if !exists {
+		vx.ObserveBool("restored", err == nil && vx.FSExists(path))
+		return
+	}
+	vx.Assert("existing-source-is-accepted", err == nil)
+	same := string(vx.FSReadFile(path)) == string(dbBytes) && vx.FSExists(path+"-wal") && vx.FSExists(path+"-shm") &&
+		string(vx.FSReadFile(path+"-wal")) == string(walBytes)
+	vx.Assert("existing-source-and-its-wal-untouched", same)
+	touched := false
+	for _, p := range vxIntegrityPaths {
+		if p == path {
+			touched = true
+		}
+	}
+	vx.Assert("no-integrity-check-on-the-live-source", !touched)
 }
